@@ -2,9 +2,14 @@
    Over any commutative ring and any w with w^N = -1, evaluation at w maps the negacyclic product of the ring model
    (the one the C loops compute, C11) to the point-wise product and commutes with add, scale, constants and zero:
    the Lagrange-domain operations commute with exact transforms, and "ifft, ifft, point-wise, fft" computes the ring
-   product when the transforms are exact.  The final conversion Torus32(int64_t(x)) adds less than one unit. *)
+   product when the transforms are exact.  The final conversion Torus32(int64_t(x)) adds less than one unit.
+   For N = 2^(n+1): the inverse sums over the N odd powers of w return N times each coefficient (orthogonality), so the
+   pipeline "transform both, multiply point-wise, inverse transform" yields N times the ring product, coefficient by
+   coefficient, and a transform determines its coefficients up to the factor N; the radix-2 butterfly recursion
+   computes all evaluations at the powers of a root; fold + twist + cyclic FFT of size N/2 (the scheme of the nayuki
+   and spqlios processors) yields the evaluations at the points w^(4k+1). *)
 From Coq Require Import ZArith List Lia Ring_theory.
-From TV Require Import Base.Int32 Ring.NegaRing Proofs.Eval.
+From TV Require Import Base.Int32 Ring.NegaRing Proofs.Eval Proofs.FftInverse Proofs.FftAlg Proofs.FftInstance.
 Import ListNotations.
 
 Theorem C10_evaluation_of_product : forall (R : Type) (rO rI : R) (radd rmul rsub : R -> R -> R) (ropp : R -> R)
@@ -41,6 +46,58 @@ Theorem C10_trunc_conversion : forall num den v d, (0 < den)%Z -> (0 < d)%Z -> (
   exists delta, (Z.abs delta <= d)%Z /\ eqm32 (w32 (Z.quot num den)) (v + delta)%Z.
 Proof. exact trunc_conversion. Qed.
 Print Assumptions C10_trunc_conversion.
+
+Theorem C10_inverse_transform : forall (R : Type) (rO rI : R) (radd rmul rsub : R -> R -> R) (ropp : R -> R)
+  (Rth : ring_theory rO rI radd rmul rsub ropp (@eq R)) (n : nat) (w : R),
+  rpow R rI rmul w (2 ^ S n) = ropp rI -> forall (f : vec) (j : nat), (j < 2 ^ S n)%nat ->
+  rsum R rO radd (2 ^ S n) (fun k => rmul (rpow R rI rmul w ((2 * k + 1) * (2 * 2 ^ S n - j)))
+                                         (ev R rO rI radd rmul ropp (2 ^ S n) (rpow R rI rmul w (2 * k + 1)) f))
+  = rmul (zr R rO rI radd rmul ropp (Z.of_nat (2 ^ S n))) (zr R rO rI radd rmul ropp (f j)).
+Proof. exact inverse_transform. Qed.
+Print Assumptions C10_inverse_transform.
+
+Theorem C10_fft_product_pipeline : forall (R : Type) (rO rI : R) (radd rmul rsub : R -> R -> R) (ropp : R -> R)
+  (Rth : ring_theory rO rI radd rmul rsub ropp (@eq R)) (n : nat) (w : R),
+  rpow R rI rmul w (2 ^ S n) = ropp rI -> forall (a b : list Z) (j : nat), (length b <= 2 ^ S n)%nat -> (j < 2 ^ S n)%nat ->
+  rsum R rO radd (2 ^ S n) (fun k => rmul (rpow R rI rmul w ((2 * k + 1) * (2 * 2 ^ S n - j)))
+       (rmul (peval R rO rI radd rmul ropp (rpow R rI rmul w (2 * k + 1)) a)
+             (peval R rO rI radd rmul ropp (rpow R rI rmul w (2 * k + 1)) b)))
+  = rmul (zr R rO rI radd rmul ropp (Z.of_nat (2 ^ S n))) (zr R rO rI radd rmul ropp (mul (2 ^ S n) a b j)).
+Proof. exact fft_product_pipeline. Qed.
+Print Assumptions C10_fft_product_pipeline.
+
+Theorem C10_transform_injective : forall (R : Type) (rO rI : R) (radd rmul rsub : R -> R -> R) (ropp : R -> R)
+  (Rth : ring_theory rO rI radd rmul rsub ropp (@eq R)) (n : nat) (w : R),
+  rpow R rI rmul w (2 ^ S n) = ropp rI -> forall f g : vec,
+  (forall k, (k < 2 ^ S n)%nat -> ev R rO rI radd rmul ropp (2 ^ S n) (rpow R rI rmul w (2 * k + 1)) f
+                                  = ev R rO rI radd rmul ropp (2 ^ S n) (rpow R rI rmul w (2 * k + 1)) g) ->
+  forall j, (j < 2 ^ S n)%nat ->
+  rmul (zr R rO rI radd rmul ropp (Z.of_nat (2 ^ S n))) (zr R rO rI radd rmul ropp (f j))
+  = rmul (zr R rO rI radd rmul ropp (Z.of_nat (2 ^ S n))) (zr R rO rI radd rmul ropp (g j)).
+Proof. exact transform_injective. Qed.
+Print Assumptions C10_transform_injective.
+
+Theorem C10_butterfly_recursion : forall (R : Type) (rO rI : R) (radd rmul rsub : R -> R -> R) (ropp : R -> R)
+  (Rth : ring_theory rO rI radd rmul rsub ropp (@eq R)) (n : nat) (u : R) (c : list R),
+  match n with O => True | S m => rpow R rI rmul u (2 ^ m) = ropp rI end ->
+  fft R rO rI radd rmul rsub n u c = tab R (2 ^ n) (fun k => pev R rO radd rmul c (rpow R rI rmul u k)).
+Proof. exact fft_correct. Qed.
+Print Assumptions C10_butterfly_recursion.
+
+Theorem C10_half_complex_scheme : forall (R : Type) (rO rI : R) (radd rmul rsub : R -> R -> R) (ropp : R -> R)
+  (Rth : ring_theory rO rI radd rmul rsub ropp (@eq R)) (m : nat) (w : R),
+  rpow R rI rmul w (2 ^ S m) = ropp rI -> forall f : vec,
+  fft R rO rI radd rmul rsub m (rpow R rI rmul w 4) (fold_twist R rO rI radd rmul ropp m w f)
+  = tab R (2 ^ m) (fun k => ev R rO rI radd rmul ropp (2 ^ S m) (rpow R rI rmul w (4 * k + 1)) f).
+Proof. exact half_complex_transform. Qed.
+Print Assumptions C10_half_complex_scheme.
+
+(* the hypotheses are met: Z[X]/(X^4+1) with w = X is a commutative ring with w^4 = -1 (N = 4) *)
+Example C10_transform_nonvacuous :
+  ring_theory q0 q1 qadd qmul qsub qopp (@eq Q8) /\ (rpow Q8 q1 qmul qX (2 ^ 2) = qopp q1) /\
+  (fft Q8 q0 q1 qadd qmul qsub 1 (rpow Q8 q1 qmul qX 4) (fold_twist Q8 q0 q1 qadd qmul qopp 1 qX fex)
+   = [(3, -5, 7, 11); (3, 5, 7, -11)]%Z).
+Proof. split; [exact Q8_ring|split; [exact qX_root|exact half_complex_instance]]. Qed.
 
 (* an instance: Z with N = 1 and w = -1 (w^1 = -1): evaluation at -1 of a constant polynomial *)
 Example C10_nonvacuous : exists delta, (Z.abs delta <= 1)%Z /\ eqm32 (w32 (Z.quot 4294967299 2)) (2147483649 + delta)%Z.
